@@ -85,6 +85,7 @@ def shards(tier, seed):
         out.append({"kind": "cancel", "sub": i, "parts": 4})
     for i in range(2 if q else 8):
         out.append({"kind": "random", "sub": i, "n": 150 if q else 1500})
+    out.append({"kind": "pool-race"})
     n = 3 if q else 12
     for i in range(n):
         out.append({"kind": "chain", "sub": i, "parts": n, "stride": 2 if q else 1})
@@ -485,6 +486,193 @@ def run_case(case, rec):
     return v, res, state
 
 
+class W18P(W18):
+    """Peer world of the pool-race stratum: /hold answers the first 40 bytes and completes only when the harness says so."""
+
+    hold_peer = None
+
+    def on_request(self, peer, path, cl):
+        if path.startswith(b"/hold"):
+            self.hold_peer = peer
+            self.send(peer, RESP[:40])
+        else:
+            self.send(peer, RESP)
+
+
+POOL_RACE_KS = list(range(-1, 15))
+
+
+def pool_race_cells():
+    cells = []
+    for per_host in (False, True):
+        for nwait in (2, 3):
+            for c_tmo in (None, 50.0):
+                for k in POOL_RACE_KS:
+                    cells.append({"mode": "pool-race", "how": "cancel", "k": k, "per_host": per_host, "nwait": nwait, "c_tmo": c_tmo})
+            for tk in ("total", "connect"):
+                for off in ("before", "same-first", "same-last", "after"):
+                    cells.append({"mode": "pool-race", "how": "timeout", "tk": tk, "off": off, "per_host": per_host, "nwait": nwait, "c_tmo": 50.0})
+    return cells
+
+
+def run_pool_race(case, rec):
+    """Full pool (one slot): A holds it, B and C (and C2) wait.  A completes (the release wakes B) and B is cancelled /
+    reaches its deadline at an enumerated loop iteration around that release.  The others must get the free slot."""
+    import aiohttp
+    from aiohttp import connector as cmod
+    from vlib.harness import MemConnector
+
+    w = W18P({"point": ("none", None)}, case.get("seed", 0))
+    loop = w.loop
+    cmod.monotonic = loop.time
+    out = {"a": {}, "b": {}, "c": {}, "c2": {}, "follow": {}}
+    state = {}
+    TB = 3.0
+
+    def factory(req):
+        p = Peer(w, len(w.peers))
+        w.peers.append(p)
+        return p
+
+    def hook(pipe, req, srv):
+        w.pipes.append(pipe)
+
+    async def get(session, name, path, tmo):
+        d = out[name]
+        try:
+            kw = {} if tmo is None else {"timeout": tmo}
+            async with session.get("http://t.test" + path, **kw) as r:
+                d["status"] = r.status
+                d["body"] = await r.read()
+            d["t_end"] = loop.time()
+        except BaseException as e:  # noqa
+            d["exc"] = type(e).__name__
+            d["t_end"] = loop.time()
+            if isinstance(e, asyncio.CancelledError):
+                raise
+
+    def finish_a():
+        w.send(w.hold_peer, RESP[40:])
+
+    async def main():
+        lim = {"limit": 0, "limit_per_host": 1} if case["per_host"] else {"limit": 1}
+        conn = MemConnector(factory, loop=loop, pipe_hook=hook, **lim)
+        session = aiohttp.ClientSession(connector=conn)
+        a = asyncio.ensure_future(get(session, "a", "/hold", None))
+        await asyncio.sleep(0.01)
+        how = case["how"]
+        btmo = None
+        if how == "timeout":
+            btmo = aiohttp.ClientTimeout(**{case["tk"]: TB})
+            dl = loop.time() + TB
+            if case["off"] == "before":
+                loop.call_at(dl - 1e-3, finish_a)
+            elif case["off"] == "same-first":
+                loop.call_at(dl, finish_a)
+        b = asyncio.ensure_future(get(session, "b", "/b", btmo))
+        if how == "timeout":
+            await asyncio.sleep(0)
+            await asyncio.sleep(0)
+            if case["off"] == "same-last":
+                loop.call_at(dl, finish_a)
+            elif case["off"] == "after":
+                loop.call_at(dl + 1e-3, finish_a)
+        await asyncio.sleep(0.01)
+        ctmo = None if case["c_tmo"] is None else aiohttp.ClientTimeout(total=case["c_tmo"])
+        others = [asyncio.ensure_future(get(session, "c", "/c", ctmo))]
+        await asyncio.sleep(0.01)
+        if case["nwait"] > 2:
+            others.append(asyncio.ensure_future(get(session, "c2", "/c2", ctmo)))
+            await asyncio.sleep(0.01)
+        state["waiters_before"] = sum(len(q) for q in conn._waiters.values())
+        state["setup_ok"] = w.hold_peer is not None and not a.done() and not b.done()
+        if how == "cancel":
+            k = case["k"]
+            if k < 0:
+                b.cancel()
+                finish_a()
+            else:
+                finish_a()
+                for _ in range(k):
+                    await asyncio.sleep(0)
+                state["b_live_at_cancel"] = not b.done()
+                b.cancel()
+        for t in (a, b):
+            try:
+                await asyncio.wait_for(asyncio.shield(t), 20)
+            except BaseException:  # noqa
+                pass
+        state["a_done"], state["b_done"] = a.done(), b.done()
+        state["t_free"] = loop.time()
+        # the slot is free (A done, B gone or served): the others are served by a peer that answers at once
+        for t in others:
+            try:
+                await asyncio.wait_for(asyncio.shield(t), 5)
+            except BaseException:  # noqa
+                pass
+        state["others_done"] = [t.done() for t in others]
+        state["acquired_when_starved"] = len(conn._acquired)
+        for t in [a, b] + others:
+            if not t.done():
+                t.cancel()
+        await asyncio.sleep(1)
+        state["acquired"] = len(conn._acquired)
+        state["waiters"] = sum(len(q) for q in conn._waiters.values())
+        me = asyncio.current_task()
+        state["tasks"] = [repr(x)[:120] for x in asyncio.all_tasks(loop) if x is not me and not x.done()]
+        f = asyncio.ensure_future(get(session, "follow", "/follow", aiohttp.ClientTimeout(total=50)))
+        try:
+            await f
+        except BaseException:  # noqa
+            pass
+        await session.close()
+
+    st, task = w.W.run(main(), max_iters=600000, time_limit=loop.time() + 2000)
+    gc.collect()
+    loop.settle(2000)
+    captured = [c for c in loop.captured]
+    key = {k: val for k, val in case.items() if not k.startswith("_")}
+    ctx = f"pool-race {key}"
+    v = []
+    if st != "until":
+        v.append(("harness:case-did-not-finish", f"{ctx} state={st} out={out}"))
+    else:
+        if not state.get("setup_ok") or state.get("waiters_before") != case["nwait"]:
+            v.append(("harness:pool-race-setup", f"{ctx}: state={state}"))
+        if out["a"].get("body") != RESP_BODY:
+            v.append((f"sibling:harmed:{out['a'].get('exc')}", f"{ctx}: slot holder ended with {out['a']}"))
+        names = ["c"] + (["c2"] if case["nwait"] > 2 else [])
+        for i, nm in enumerate(names):
+            d = out[nm]
+            if not state["others_done"][i] or d.get("exc") or d.get("body") != RESP_BODY:
+                v.append(("residue:other-waiter-starved-after-cancel@pool",
+                          f"{ctx}: request {nm} waiting for the same slot ended with {d or 'still waiting'} 5 s after the slot became free "
+                          f"(holder done={state.get('a_done')}, struck waiter={out['b']}, acquired={state.get('acquired_when_starved')})"))
+                break
+        if state.get("acquired"):
+            v.append(("residue:slot-not-freed", f"{ctx}: {state['acquired']} connection(s) still counted as acquired"))
+        if state.get("waiters"):
+            v.append(("residue:waiter-left", f"{ctx}: {state['waiters']} waiter(s) left"))
+        if state.get("tasks"):
+            v.append(("residue:task-alive", f"{ctx}: {state['tasks'][:3]}"))
+        fo = out["follow"]
+        if fo.get("exc") or fo.get("body") != RESP_BODY:
+            v.append((f"session:unusable-afterwards:{fo.get('exc')}", f"{ctx}: follow-up {fo}"))
+        for c in captured:
+            v.append((f"loop-exception-handler:{c.get('exc_type') or (c.get('message') or '')[:40]}", f"{ctx}: {c.get('message')} {c.get('exception')} {c.get('future')}"))
+            break
+    w.W.close()
+    bo = str(out["b"].get("exc") or out["b"].get("status"))
+    rec.case(key, nontrivial=bool(state.get("setup_ok")))
+    rec.count("cases")
+    rec.count("pool-race-cases")
+    rec.count("pool-race:struck-waiter:" + bo)
+    rec.sig("interleaving", ("pool-race", case["how"], case.get("k"), case.get("off"), case.get("tk"), case["per_host"], case["nwait"], bo))
+    for mech, summ in v:
+        rec.violation(mech, summ, key)
+    return v
+
+
 def report(rec, case, v, res, state):
     key = {k: val for k, val in case.items() if not k.startswith("_")}
     reached = ("exc" in res) or ("status" in res)
@@ -536,6 +724,13 @@ def run_chain_case(case, rec):
 
 def run_shard(spec, rec):
     kind = spec["kind"]
+    if kind == "pool-race":
+        cells = pool_race_cells()
+        for case in cells:
+            run_pool_race(dict(case), rec)
+        rec.set_exhaustive("full pool: cancel iteration / deadline of a woken waiter relative to the release x limit kind x waiters", True)
+        rec.sample({"pool-race-example": cells[3]})
+        return
     if kind == "chain":
         from vlib import c18chain as cc
 
@@ -732,6 +927,9 @@ def random_chain_case(rng):
 def replay(witness, rec):
     if witness.get("mode") == "chain":
         run_chain_case(dict(witness), rec)
+        return
+    if witness.get("mode") == "pool-race":
+        run_pool_race(dict(witness), rec)
         return
     case = dict(witness)
     case["point"] = tuple(case["point"]) if isinstance(case["point"], list) else case["point"]
